@@ -17,6 +17,9 @@ def main():
             fo.flush()
             os.fsync(fo.fileno())
             try:
+                if isinstance(rec["case"], dict):
+                    from vharness import pb
+                    pb.set_naming(rec["case"].get("naming", 0))
                 obs = prop.impl(rec["case"])
             except BaseException as e:  # noqa: an exception of the implementation is an observation
                 if isinstance(e, (KeyboardInterrupt, SystemExit)):
